@@ -10,7 +10,7 @@ func VerifH_total_bam_parseaux() {
 	n := vrt.Int("len")
 	vrt.Assume(n >= 0)
 	vrt.Assume(n <= N)
-	aa, err := parseAux(b[:n])
+	aa, err := parseAux(b[:n:n])
 	if err != nil {
 		vrt.Reach("error")
 		return
